@@ -123,6 +123,24 @@ theorem C12_stops_pulling (limit : Nat) (items : List Item) :
 example : pulled 3 (chunks [[1, 2], [3, 4], [5]]) = (2, false) := by decide
 example : pulled 3 (chunks [[1, 2], [3]]) = (2, true) := by decide
 
+/-- **C12_pulled_shortest**: on an error-free stream that overflows, the pulled items together
+exceed the limit — with `C12_stops_pulling` the extractor pulls exactly the shortest prefix of the
+stream that is over the limit, never more. -/
+theorem C12_pulled_shortest (limit : Nat) (cs : List Bytes) (k : Nat)
+    (h : collect limit (chunks cs) = .overflow k) :
+    itemsBytes ((chunks cs).take (pulled limit (chunks cs)).1) > limit := by
+  have := pulledFrom_overflow_exceeds limit (chunks cs) [] k (by simpa [collect] using h)
+  simpa [pulled] using this
+
+/-- **C12_schedule_independent**: any interleaving of `Pending`s into the stream's answers leaves
+every state of the loop, hence the result, unchanged (all schedules, not a sample). -/
+theorem C12_schedule_independent (limit : Nat) (ps : List PollEv) :
+    finish (ps.foldl (stepPoll limit) (.run [])) = collect limit (readyItems ps) := by
+  rw [stepPoll_fold]; rfl
+
+example : readyItems [.pending, .ready (.chunk [1]), .pending, .pending, .ready (.chunk [2])] =
+    chunks [[1], [2]] := by decide
+
 /-! ## 3. declared Content-Length -/
 
 /-- **C12_declared**: a declared length above the limit is refused on the header alone (nothing
@@ -241,6 +259,19 @@ def expandD (k : Nat) (bs : Bytes) : Bytes := bs.flatMap (fun x => List.replicat
 theorem expandD_append (k : Nat) (a b : Bytes) : expandD k (a ++ b) = expandD k a ++ expandD k b := by
   simp [expandD, List.flatMap_append]
 
+/-- **C12_end_to_end_chunking_independent**: the three header-reading extractors behind a lawful
+decoder: for a fixed declared length the complete result (body or error) is the same for every
+segmentation of the wire image. -/
+theorem C12_end_to_end_chunking_independent {σ : Type} (c : Codec σ) (s0 : σ) (D : Bytes → Bytes)
+    (hl : Lawful c s0 D) (dflt limit : Nat) (d : Decl) (cs cs' : List Bytes)
+    (h : cs.flatten = cs'.flatten) :
+    httpMessageBody dflt limit d (decodeItems c s0 (chunks cs)) =
+      httpMessageBody dflt limit d (decodeItems c s0 (chunks cs')) ∧
+    jsonBody limit d (decodeItems c s0 (chunks cs)) = jsonBody limit d (decodeItems c s0 (chunks cs')) ∧
+    urlEncoded limit d (decodeItems c s0 (chunks cs)) = urlEncoded limit d (decodeItems c s0 (chunks cs')) := by
+  have e := C12_decoded_chunking_independent c s0 D hl limit cs cs' h
+  simp only [httpMessageBody, jsonBody, urlEncoded, e, and_self]
+
 /-- a concrete stateless codec satisfying the law (each wire byte decodes to `k` copies), so that
 the hypothesis `Lawful` is not vacuous -/
 def expandCodec (k : Nat) : Codec Unit where
@@ -341,6 +372,17 @@ theorem C12_mp_no_underflow (l : Limits) (bytes : Nat) (m : Bool) :
   obtain ⟨t, mem, f⟩ := l
   cases m <;> cases f <;> simp [charge, Fits] at * <;> omega
 
+/-- **C12_mp_ops_monotone**: over every sequence of `try_consume_limits` calls — also one that
+carries on after a refusal, where an earlier budget stays charged — no remaining budget ever
+grows (so none can have wrapped below zero). -/
+theorem C12_mp_ops_monotone (l : Limits) (ops : List (Nat × Bool)) :
+    (runOps l ops).total ≤ l.total ∧ (runOps l ops).memory ≤ l.memory ∧
+    (∀ f', (runOps l ops).field = some f' → ∃ f, l.field = some f ∧ f' ≤ f) :=
+  runOps_mono ops l
+
+example : runOps { total := 10, memory := 3, field := some 9 } [(4, true), (2, false)] =
+    { total := 4, memory := 3, field := some 7 } := by decide
+
 /-- **C12_mp_field_iff**: a field is read to the end iff the *sum* of its chunk lengths fits all
 applicable budgets; then the budgets are charged that sum. -/
 theorem C12_mp_field_iff (m : Bool) (l : Limits) (ns : List Nat) :
@@ -382,6 +424,29 @@ example : (multipartForm (fun n => if n = "a" then some 16 else none) 100 50
     [⟨"a", .memory, [10]⟩, ⟨"a", .memory, [3, 3]⟩, ⟨"b", .file, [60]⟩]).1 = .ok := by decide
 example : (multipartForm (fun n => if n = "a" then some 16 else none) 100 50
     [⟨"a", .memory, [10]⟩, ⟨"a", .memory, [3, 4]⟩]).1 = .overflow 1 := by decide
+
+/-- **C12_mp_form_spec**: the complete result of `MultipartForm` extraction, all three cases
+(`FormFits limitOf []` is the three-sum condition of `C12_mp_form_iff`): success means no denied
+duplicate and everything fits; `Overflow` is reported at the *first* field whose bytes make a sum
+exceed its budget, everything before it having fitted; a denied duplicate is reported only if
+everything before it fitted. -/
+theorem C12_mp_form_spec (limitOf : String → Option Nat) (total memory : Nat) (fs : List Field) :
+    match (multipartForm limitOf total memory fs).1 with
+    | .ok => (∀ f ∈ fs, f.kind ≠ .deny) ∧ FormFits limitOf [] total memory fs
+    | .overflow j => ∃ pre f suf, fs = pre ++ f :: suf ∧ j = pre.length ∧
+        (∀ g ∈ pre, g.kind ≠ .deny) ∧ f.kind ≠ .deny ∧
+        FormFits limitOf [] total memory pre ∧ ¬ FormFits limitOf [] total memory (pre ++ [f])
+    | .duplicate j => ∃ pre f suf, fs = pre ++ f :: suf ∧ j = pre.length ∧
+        (∀ g ∈ pre, g.kind ≠ .deny) ∧ f.kind = .deny ∧ FormFits limitOf [] total memory pre := by
+  have := formLoop_spec limitOf fs { total := total, memory := memory, field := none } [] 0
+  unfold multipartForm
+  revert this
+  cases (formLoop limitOf { total := total, memory := memory, field := none } [] 0 fs).1 with
+  | ok => exact fun h => h
+  | overflow j => intro h; simpa using h
+  | duplicate j => intro h; simpa using h
+
+example : (multipartForm (fun _ => none) 10 10 [⟨"b", .memory, [4]⟩, ⟨"b", .deny, [1]⟩]).1 = .duplicate 1 := by decide
 
 /-- the part of a field the budgets can see: name, how it is handled, total size -/
 def fieldSig (f : Field) : String × FieldKind × Nat := (f.name, f.kind, fieldSum f)
@@ -430,6 +495,20 @@ theorem C12_field_bytes_spec (limit : Nat) (items : List Item) :
       else .limitExceeded := by
   have := fieldBytesFrom_spec limit items [] (by simp)
   simpa [fieldBytes] using this
+
+/-- **C12_field_bytes_within**: data is returned only if it is within the limit, complete and
+exactly what the field delivered. -/
+theorem C12_field_bytes_within (limit : Nat) (items : List Item) (b : Bytes)
+    (h : fieldBytes limit items = .ok b) :
+    b.length ≤ limit ∧ b = bytesBeforeErr items ∧ hasErr items = false := by
+  rw [C12_field_bytes_spec] at h
+  cases he : hasErr items
+  · rw [he] at h
+    simp only [Bool.false_eq_true, if_false] at h
+    by_cases hl : (bytesBeforeErr items).length ≤ limit
+    · rw [if_pos hl] at h; injection h with h; subst h; exact ⟨hl, rfl, rfl⟩
+    · rw [if_neg hl] at h; cases h
+  · rw [he] at h; simp at h
 
 /-- **C12_field_bytes_chunking_independent** -/
 theorem C12_field_bytes_chunking_independent (limit : Nat) (items items' : List Item)
